@@ -54,3 +54,11 @@ Proof. exact reg_run_one. Qed.
 Theorem C15_new_forbid_clause_not_falsified : forall U A (st : sstate A) c,
   RInv U A st -> fresh_wrt U (s_enc st) c -> forbid_side (tr_lits st) c = true.
 Proof. exact fresh_forbid_side. Qed.
+
+(* for every run of the solver model -- with soft requirements too -- the state a solution is read from
+   satisfies RInv, and every solvable of the answer had been registered with the at-most-one tracker of its
+   package (so the at-most-one clauses of its package speak about it) *)
+Theorem C15_solution_members_registered : forall U P, WF U -> forall A a_ge a_conflict fuel efuel (a0 : A) order sol st,
+  solve U P a_ge a_conflict fuel efuel a0 order = (OSat sol, st) ->
+  RInv U A st /\ forall x, In x sol -> registered U (s_enc st) x.
+Proof. exact solve_registered. Qed.
